@@ -43,7 +43,14 @@ class Report:
         if len(self.samples) < limit:
             self.samples.append(s)
 
-    def violation(self, what, replay_obj):
+    def violation(self, what, replay_obj, key=None):
+        """One VIOLATION line per distinct violation: at most 3 per `key` (default: the text), 15 in total; the rest are counted."""
+        key = key or what[:80]
+        self._vkeys = getattr(self, "_vkeys", {})
+        self._vkeys[key] = self._vkeys.get(key, 0) + 1
+        if self._vkeys[key] > 3 or len(self.violations) >= 15:
+            self.extra["violations_not_listed"] = self.extra.get("violations_not_listed", 0) + 1
+            return
         os.makedirs(REPLAY, exist_ok=True)
         n = len(self.violations) + 1
         path = os.path.join(REPLAY, "%s-%d.json" % (self.pid, n))
@@ -70,7 +77,7 @@ class Report:
         print("MACHINERY-ERROR property=%s %s" % (self.pid, text[:2000]), flush=True)
 
     # --- writing
-    def finish(self):
+    def finish(self, write=True):
         cov = dict(
             states=int(self.states), transitions=int(self.transitions),
             traces_validated_against_impl=int(self.traces),
@@ -85,9 +92,10 @@ class Report:
                   violations=len(self.violations))
         if self.machinery_errors:
             ev["coverage"]["machinery_errors"] = self.machinery_errors[:20]
-        os.makedirs(EVID, exist_ok=True)
-        with open(os.path.join(EVID, self.pid + ".json"), "w") as f:
-            json.dump(ev, f, indent=1, default=str)
+        if write:
+            os.makedirs(EVID, exist_ok=True)
+            with open(os.path.join(EVID, self.pid + ".json"), "w") as f:
+                json.dump(ev, f, indent=1, default=str)
         if self.violations:
             return 1
         if self.machinery_errors:
